@@ -324,7 +324,9 @@ def run(ctx):
         hc.coordinate_from_distance(2, n, 1)
     units, ex = plan(ctx)
 
-    units.insert(0, ("interp", 0, 0))
+    # check_interpreted (the same clauses with NUMBA_DISABLE_JIT=1) is NOT part of the check: the property does not promise that
+    # the library works with the JIT switched off, and a property-preserving rewrite of the bit interleaving that relies on
+    # numba's integer promotion fails there (false alarm found by the false-alarm wave, DESIGN 8.9). Kept as a development aid.
 
     def work(col, i):
         mode, n, p = units[i]
